@@ -6,8 +6,8 @@ import re
 import framework
 from framework import REPO, ROOT
 
-TIE = ["Nsq.Tie.Life", "Nsq.Tie.TopicDelete"]
-PROPS = ["Nsq.Props.C08", "Nsq.Props.C08TopicDelete"]
+TIE = ["Nsq.Tie.Life", "Nsq.Tie.TopicDelete", "Nsq.Tie.ChanDelete"]
+PROPS = ["Nsq.Props.C08", "Nsq.Props.C08TopicDelete", "Nsq.Props.C08ChanDelete"]
 HARNESS = ["e5/replay_test.go", "e5/life_test.go", "e5/inflight_test.go", "e5/conc_test.go", "e5/pairs_test.go"]
 
 # hook schedules exhibited in Lean (Props/C08.lean) and replayed on the real code
@@ -163,6 +163,24 @@ def replay_known(ctx, binp):
                           % (kv.get("recreated_depth"), kv.get("files")),
                           open(os.path.join(ROOT, "corpus", "C08", "known", "orphan_resurrect.sched")).read())
     topic_delete_replays(ctx, binp, res)
+    sync_every_replays(ctx, binp, res)
+    rc, kv, out = run_sched(ctx, binp, "empty_races_req_survives", timeout=90)
+    res["empty_races_req_survives"] = kv or {"error": out[-300:]}
+    sched = open(os.path.join(ROOT, "corpus", "C08", "known", "empty_races_req_survives.sched")).read()
+    if not kv:
+        if rc == -9 or "test timed out" in out:
+            ctx.violation("daemon-hangs:empty_races_req_survives", "Empty racing a parked REQ did not finish", sched)
+        else:
+            ctx.broken_ties.append("replay empty_races_req_survives did not run (rc=%s)" % rc)
+    else:
+        ctx.evaluations += 1
+        ctx.count_case("sched:empty_races_req_survives", nontrivial=True)
+        obs = " ".join("%s=%s" % x for x in sorted(kv.items()))
+        if kv.get("empty") != "ok":
+            ctx.violation("daemon-hangs:empty_races_req_survives", obs, sched + "# observed: " + obs + "\n")
+        elif kv.get("survived") == "true":
+            k = "empty-races-req-message-survives" + (":despite-lock" if kv.get("empty_waited_for_req") == "true" else "")
+            ctx.violation(k, "empty_races_req_survives: " + obs, sched + "# observed: " + obs + "\n")
     ctx.corr["hook_replays"] = res
 
 
@@ -173,6 +191,9 @@ TOPIC_DELETE = [
     ("topic_delete_races_sub_early", "zombie_consumer", "topic-delete-races-sub-zombie-consumer:early", None),
     ("topic_delete_races_create_channel", "files_or_meta", "topic-delete-races-create-channel-leaves-state", None),
     ("topic_double_delete_unlinks_fresh", "older_delete_hit_fresh_topic", "topic-double-delete-unlinks-fresh-topic", "ownUnlink"),
+    # channel level (Model/ChanDelete.lean, round 7)
+    ("chan_double_delete_unlinks_fresh", "older_delete_hit_fresh_channel", "channel-double-delete-unlinks-fresh-channel", "chanOwnUnlink"),
+    ("chan_double_delete_waits", "wrong", "channel-double-delete-overtakes-running-exit", None),
 ]
 
 
@@ -186,7 +207,9 @@ def topic_delete_shape(ctx):
         m = re.search(r"def %s : List String := \[(.*?)\]\n" % name, txt, re.S)
         return re.findall(r'"((?:[^"\\]|\\.)*)"', m.group(1)) if m else []
     shape = {"subGuard": fact("subGuard") == ["if (channel.ephemeral && channel.Exiting()) || topic.Exiting()"],
-             "ownUnlink": fact("deleteTopicStmts") == ["if err == errExiting", "if n.topicMap[topicName] == topic"]}
+             "ownUnlink": fact("deleteTopicStmts") == ["if err == errExiting", "if n.topicMap[topicName] == topic"],
+             "chanOwnUnlink": fact("deleteChanStmts") == ["if t.channelMap[channelName] == channel"],
+             "syncEveryValidated": fact("syncEveryGuard") == ["if opts.SyncEvery < 1"]}
     ctx.corr["topic_delete_model_of_tree"] = shape
     return shape
 
@@ -220,6 +243,46 @@ def topic_delete_replays(ctx, binp, res):
         if bad:
             k = key + (":despite-fix" if guard and shape.get(guard) else "")
             ctx.violation(k, "%s: %s" % (name, obs), sched + "# observed: " + obs + "\n")
+
+
+KEY_SYNC0 = "sync-every-zero-delete-leaves-meta-file"
+
+
+def sync_every_replays(ctx, binp, res):
+    """--sync-every reaches go-diskqueue unvalidated unless nsqd.New refuses non-positive values (tie
+    sync_every_validation_shape).  0: every loop pass syncs → Empty's metadata removal is undone → a deleted
+    topic/channel leaves <name>.diskqueue.meta.dat (open finding); negative and 1 must be clean."""
+    shape = topic_delete_shape(ctx)
+    for name in ("sync_every_zero_delete", "sync_every_negative_delete", "sync_every_one_delete"):
+        rc, kv, out = run_sched(ctx, binp, name, timeout=60)
+        res[name] = kv or {"error": out[-300:]}
+        sched = open(os.path.join(ROOT, "corpus", "C08", "known" if name == "sync_every_zero_delete" else "", name + ".sched")).read()
+        if not kv:
+            if rc == -9 or "test timed out" in out:
+                ctx.violation("daemon-hangs:" + name, "%s did not finish" % name, sched)
+            else:
+                ctx.broken_ties.append("replay %s did not run (rc=%s)" % (name, rc))
+            continue
+        ctx.evaluations += 1
+        ctx.count_case("sched:" + name, nontrivial=True)
+        obs = " ".join("%s=%s" % x for x in sorted(kv.items()))
+        if kv.get("new_refused") == "true":
+            if name == "sync_every_one_delete" or not shape.get("syncEveryValidated"):
+                ctx.violation("sync-every-refused:" + name, "nsqd.New refused the configuration: " + obs, sched + "# observed: " + obs + "\n")
+            continue
+        if shape.get("syncEveryValidated") and name != "sync_every_one_delete":
+            ctx.violation("sync-every-accepted-despite-validation:" + name, obs, sched + "# observed: " + obs + "\n")
+            continue
+        left = [x for x in (kv.get("chan_files_left", "") + "," + kv.get("topic_files_left", "")).split(",") if x]
+        if kv.get("delete_chan") != "ok" or kv.get("delete_topic") != "ok":
+            ctx.violation("daemon-hangs:" + name, obs, sched + "# observed: " + obs + "\n")
+        elif kv.get("recreated_depth", "0") != "0":
+            ctx.violation("recreated-not-empty:" + name, obs, sched + "# observed: " + obs + "\n")
+        elif left:
+            if name == "sync_every_zero_delete" and all(x.endswith(".diskqueue.meta.dat") for x in left):
+                ctx.violation(KEY_SYNC0, "deleted channel and topic leave %s (--sync-every 0)" % left, sched + "# observed: " + obs + "\n")
+            else:
+                ctx.violation("files-left-behind:" + name, "deleted channel/topic leave %s" % left, sched + "# observed: " + obs + "\n")
 
 
 def read_streams(ctx, name):
